@@ -15,7 +15,7 @@ def run(tier):
     run.confirm_known()
     q = tier == "quick"
     rnd = random.Random(run.seed)
-    shapes = [(1, 0), (0, 1), (1, 1), (2, 0), (0, 2)] if q else [(1, 0), (0, 1), (1, 1), (2, 0), (0, 2), (2, 1), (1, 2), (2, 2), (3, 0), (0, 3), (4, 0)]
+    shapes = [(1, 0), (0, 1), (1, 1), (2, 0), (0, 2)] if q else [(1, 0), (0, 1), (1, 1), (2, 0), (0, 2), (2, 1), (1, 2), (2, 2), (3, 0), (0, 3)]
     try:
         validate_translator(run, rnd, 13 if q else 40)
         one = z3.FPVal(1.0, F64)
